@@ -370,7 +370,7 @@ def check_fn(st, evs, B):
         if len(vals) != len(grp):
             B.F.violation("C12:field-count", "record has %d fields, format has %d: %s" % (len(vals), len(grp), short(rec, 200)), wit)
             continue
-        bracket = (O["now"], en["now"])
+        bracket = (O["now_s"], en["now_s"])      # whole seconds as integers (a double cannot hold the microseconds exactly)
         for name, got in zip(grp, vals):
             exp = expected(name, O, st, bracket, B.version)
             if exp is None:
